@@ -265,10 +265,11 @@ func init() {
 			{Pkg: "fasthttp", Func: "vhC07ClientResponseLimit", Quick: map[string]int{"maxLimit": 6, "maxBody": 8}, Thorough: map[string]int{"maxLimit": 8, "maxBody": 9}},
 			{Pkg: "fasthttp", Func: "vhC07DecompressLimit", Quick: map[string]int{"maxLimit": 5, "maxBody": 7}, Thorough: map[string]int{"maxLimit": 8, "maxBody": 10}, NoNative: true},
 			{Pkg: "fasthttp", Func: "vhC07MultipartGzipLimit", NoNative: true},
+			{Pkg: "fasthttp", Func: "vhC07MultipartStreamLimit", NoNative: true},
 		},
 		Assume: []string{
 			"client side (vhC07ClientResponseLimit): the real HostClient with MaxResponseBodySize = L ∈ [1,maxLimit] against a scripted server answering with n ≤ maxBody arbitrary body bytes, fixed length / one chunk / delimited by the close in reads of ≤ 2 bytes: n ≤ L is returned whole, n > L is ErrBodyTooLarge; the codecs themselves (gzip / deflate / brotli / zstd inflation) are not interpretable and are the environment of the next two harnesses",serveAssume,
-			"decompressing *WithLimit helpers (vhC07DecompressLimit): the codec constructors and their Read/Reset/Close methods (klauspost gzip.Reader, zlib.NewReader, brotli.Reader, zstd.Decoder) are harness stubs delivering one scripted inflated stream of n ≤ maxBody arbitrary bytes in reads of ≤ 1..3 bytes; the real Request/Response Body{Gunzip,Inflate,Unbrotli,Unzstd}WithLimit and BodyUncompressedWithLimit (all four encodings), the reader pools (each call made twice: fresh reader, then pooled reader through Reset), write{Gunzip,Inflate,Unbrotli,Unzstd}, copyZeroAllocWithLimit, copyZeroAlloc and ByteBuffer.ReadFrom run as they are, limit L ∈ [1,maxLimit]: at most L+1 inflated bytes are ever pulled out of the codec, n > L is ErrBodyTooLarge, n ≤ L is returned whole. vhC07MultipartGzipLimit: MultipartFormWithLimit(L) over a buffered gzip body whose inflated stream is a fixed 59-byte well-formed form, L ∈ [1,61]: at most L+1 bytes inflated, refused when the form is longer than L, parsed otherwise (mime/multipart interpreted). Outside: the streamed-body branch of MultipartFormWithLimit (stdlib gzip + multipart.Reader over a stream), what the real codecs buffer internally, compressed input that is itself malformed",
+			"decompressing *WithLimit helpers (vhC07DecompressLimit): the codec constructors and their Read/Reset/Close methods (klauspost gzip.Reader, zlib.NewReader, brotli.Reader, zstd.Decoder) are harness stubs delivering one scripted inflated stream of n ≤ maxBody arbitrary bytes in reads of ≤ 1..3 bytes; the real Request/Response Body{Gunzip,Inflate,Unbrotli,Unzstd}WithLimit and BodyUncompressedWithLimit (all four encodings), the reader pools (each call made twice: fresh reader, then pooled reader through Reset), write{Gunzip,Inflate,Unbrotli,Unzstd}, copyZeroAllocWithLimit, copyZeroAlloc and ByteBuffer.ReadFrom run as they are, limit L ∈ [1,maxLimit]: at most L+1 inflated bytes are ever pulled out of the codec, n > L is ErrBodyTooLarge, n ≤ L is returned whole. vhC07MultipartGzipLimit: MultipartFormWithLimit(L) over a buffered gzip body whose inflated stream is a fixed 59-byte well-formed form, L ∈ [1,61]: at most L+1 bytes inflated, refused when the form is longer than L, parsed otherwise (mime/multipart interpreted). vhC07MultipartStreamLimit: the same form as a streamed request body (SetBodyStream, size unknown), identity or gzip (the standard library's gzip.NewReader / Reader.Read stubbed the same way), L ∈ [1,61]: at most L+1 bytes of the form are pulled from the stream, refused beyond L, parsed otherwise. Outside: what the real codecs buffer internally, compressed input that is itself malformed",
 			"server-side clauses only: MaxRequestBodySize = L symbolic in [1, maxLimit], a non-streamed POST with n ≤ maxBody arbitrary body bytes, fixed-length or chunked in one or two chunks, followed by a second request; ReadBufferSize = 64 with heads of 33..153 bytes",
 			"per-request limits (vhC07PerRequestLimit): server limit 3, HeaderReceived raises it to 9 for /up only; two POSTs (/up and /p in either order, 0..11 body bytes each, fixed-length or one chunk) on one keep-alive connection: each is dispatched exactly when its body fits the limit of its own request",
 			"announced sizes (vhC07AnnouncedTooLarge): Content-Length or a single chunk-size line announcing 1..40 bytes, the data arriving in later segments, limit L from MaxRequestBodySize or from a smaller per-request RequestConfig returned by HeaderReceived (server limit 64), with and without Expect: 100-continue, with and without a multipart/form-data content type; once the announcement exceeds L the data segment must never be read from the connection",
